@@ -123,6 +123,11 @@ class SigGen:
             self.feat.add('agg:overaligned-memory')
             lv = [('.m0', 'i', 'long', None), ('.m1', 'i', 'long', None), ('.m2', 'f', 'double', None)]
             return P('struct %s' % tag, 'struct %s { _Alignas(%d) long m0; long m1; double m2; };' % (tag, al), lv, 'agg')
+        if special == 2:
+            # an aggregate whose second eightbyte is alignment padding only (class NO_CLASS)
+            self.feat.add('agg:padding-eightbyte')
+            mt, kind = ch.choice([('int', 'i'), ('float', 'f'), ('long', 'i'), ('double', 'f'), ('char', 'i')])
+            return P('struct %s' % tag, 'struct %s { _Alignas(16) %s m0; };' % (tag, mt), [('.m0', kind, mt, None)], 'agg')
         packed = special == 1
         if packed:
             self.feat.add('agg:packed')
@@ -132,13 +137,9 @@ class SigGen:
         a = g.agg(ch.int(0, 1), tag=tag)
 
         def drop_padding_fields(agg):
-            # D73 (recorded): an eightbyte made only of unnamed bit-field padding has class NO_CLASS and takes no register in gcc/clang;
-            # chibicc passes it in one.  Unnamed bit-fields of non-zero width are removed from by-value aggregates.
+            # (D73, eightbytes that consist of padding only, was repaired: unnamed bit-fields of any width stay in)
             keep = []
             for f in agg.fields:
-                if f.bf is not None and f.name is None and f.bf > 0:
-                    self.excl['D73'] = self.excl.get('D73', 0) + 1
-                    continue
                 if f.bf is None and isinstance(f.ty, tgen.Agg):
                     drop_padding_fields(f.ty)
                 keep.append(f)
@@ -366,8 +367,8 @@ class C06:
             'leaf and its stack alignment, caller logs returned leaves, an assembly trampoline checks rbx/rbp/rsp/r12-r15. non-trivial = aggregate parameter or return, variadic, register '
             'exhaustion, or long double in memory; distinct by classification vector.')
     assumptions = ['gcc and clang implement the psABI; a signature counts only if (gcc,gcc) and (clang,gcc) logs agree',
-                   'recorded findings excluded by construction: D17 (aggregates with long double members), D18 (va_arg of aggregates <= 16 bytes), D73 (eightbytes consisting only of unnamed bit-field padding)']
-    excl = {'D17': 0, 'D18': 0, 'D73': 0}
+                   'recorded findings excluded by construction: D17 (aggregates with long double members), D18 (va_arg of aggregates <= 16 bytes)']
+    excl = {'D17': 0, 'D18': 0}
 
     def budget(self, tier):
         return 2200 if tier == 'quick' else 26000
